@@ -146,7 +146,7 @@ class Translator:
 
     def lean_binder(self, name, kind):
         t = {"S": "α", "V": "List α", "N": "Nat", "B": "Bool", "ON": "Option Nat", "RN": "α → Nat", "OS": "Option α",
-             "FN": "α → α", "FN2": "α → α → α"}[kind]
+             "FN": "α → α", "FN2": "α → α → α", "FVS": "List α → List α × α", "FS": "List α → α"}[kind]
         return f"({name} : {t})"
 
     # ---- expressions
@@ -219,7 +219,7 @@ class Translator:
 
     def is_ns(self, c, e) -> bool:
         """an array-namespace expression: xp, np, math, self.xp, samples.xp, sliced.xp"""
-        if isinstance(e, ast.Name) and e.id in ("xp", "np", "math", "numpy"):
+        if isinstance(e, ast.Name) and e.id in ("xp", "np", "math", "numpy", "torch", "jnp", "torch_api"):
             return True
         if isinstance(e, ast.Attribute) and e.attr == "xp":
             return True
@@ -432,6 +432,23 @@ class Translator:
     def e_Call(self, c, e):
         f = e.func
         kw = {k.arg: k.value for k in e.keywords}
+        calls = c.spec.get("calls", {})
+        ftxt = ast.unparse(f)
+        if ftxt in calls:
+            lname, sig = calls[ftxt]
+            if sig == "const:VS":
+                return ("tcall", f"({lname}_x, {lname}_lp)", ["V", "S"])
+            if sig == "const:V":
+                return Vec.var(f"{lname}_x")
+            arg = self.vec_of(c, self.expr(c, e.args[0]))
+            if not isinstance(arg, Vec):
+                raise Untranslatable(f"argument of {ftxt} must be a vector")
+            a = paren(self.emit_vec(arg))
+            if sig == "V->VS":
+                return ("tcall", f"({lname} {a})", ["V", "S"])
+            if sig == "V->S":
+                return Sc(f"({lname} {a})")
+            raise Untranslatable(f"call signature {sig}")
         # method call on a vector / namespace function
         if isinstance(f, ast.Attribute):
             if self.is_ns(c, f.value):
@@ -663,6 +680,8 @@ class Translator:
             return "pass"
         if isinstance(st, (ast.Import, ast.ImportFrom)):
             return "pass"
+        if isinstance(st, ast.Assign) and isinstance(st.value, ast.Call) and ast.unparse(st.value.func) in c.spec.get("skip_calls", []):
+            return f"bookkeeping `{ast.unparse(st)[:60]}`"
         return None
 
     def bind_name(self, c, target, val, k):
@@ -742,6 +761,8 @@ class Translator:
             return self.if_stmt(c, st, rest, k)
         if isinstance(st, ast.While):
             return self.while_stmt(c, st, rest, k)
+        if isinstance(st, ast.With):
+            return self.block(c, list(st.body) + list(rest), k)       # `with torch.no_grad():` does not change values
         raise Untranslatable(f"statement {type(st).__name__}: {ast.unparse(st)[:80]}")
 
     def flush(self, c) -> str:
@@ -1126,6 +1147,19 @@ class Translator:
         for pyname, ln in spec.get("functions", {}).items():
             env.setdefault("__fns__", {})[ln] = ln
             params.append((ln, "FN", ("fn", ln)))
+        seen_calls = set()
+        for txt, (ln, sig) in spec.get("calls", {}).items():
+            if ln in seen_calls:
+                continue
+            seen_calls.add(ln)
+            if sig == "const:VS":
+                env[f"{ln}_x"] = Vec.var(f"{ln}_x"); params.append((f"{ln}_x", "V", ("param", f"{ln}_x")))
+                env[f"{ln}_lp"] = Sc(f"{ln}_lp"); params.append((f"{ln}_lp", "S", ("param", f"{ln}_lp")))
+            elif sig == "const:V":
+                env[f"{ln}_x"] = Vec.var(f"{ln}_x"); params.append((f"{ln}_x", "V", ("param", f"{ln}_x")))
+            else:
+                params.append((ln, {"V->VS": "FVS", "V->S": "FS"}[sig], ("fn", ln)))
+                env.setdefault("__fns__", {})[ln] = ln
         for txt, ln in spec.get("constants", {}).items():
             if (ln, "S", ("const", ln)) not in params:
                 params.append((ln, "S", ("const", ln)))
